@@ -16,12 +16,13 @@
 #include <cstdio>
 #include <cstdlib>
 #include <vector>
+#include <atomic>
 
-static int g_nthreads = 4;
+static thread_local int g_nthreads = 4; // nthreads-var is a per-thread ICV in OpenMP (set by omp_set_num_threads of that thread, inherited by team members)
 static int g_mode = 0;
 static uint64_t g_orderseed = 0;
 static int g_cap = 0; // > 0: deliver at most this many members per team (OpenMP may always deliver fewer threads than requested)
-static uint64_t g_regions = 0, g_multi_regions = 0, g_max_team = 0;
+static std::atomic<uint64_t> g_regions{0}, g_multi_regions{0}, g_max_team{0}; // (atomic: application threads may enter regions concurrently)
 static thread_local int tl_num = 0;
 static thread_local int tl_team = 1;
 
@@ -39,11 +40,11 @@ void omp_set_dynamic(int) {}
 void omp_set_num_threads(int n) { if (n > 0) g_nthreads = n; }
 int omp_in_parallel() { return tl_team > 1; }
 
-struct Arg { void (*fn)(void *); void *data; int id, team; };
+struct Arg { void (*fn)(void *); void *data; int id, team, nthreads; };
 static void *tramp(void *p)
 {
     Arg *a = (Arg *)p;
-    tl_num = a->id; tl_team = a->team;
+    tl_num = a->id; tl_team = a->team; g_nthreads = a->nthreads;
     a->fn(a->data);
     tl_num = 0; tl_team = 1;
     return nullptr;
@@ -54,15 +55,15 @@ void GOMP_parallel(void (*fn)(void *), void *data, unsigned num_threads, unsigne
     if (team < 1) team = 1;
     if (g_cap > 0 && team > g_cap) team = g_cap;
     if (tl_team > 1) team = 1; // nested region: serialised (OpenMP default, nesting disabled)
-    g_regions++;
+    const uint64_t region_index = ++g_regions;
     if (team > 1) g_multi_regions++;
-    if ((uint64_t)team > g_max_team) g_max_team = team;
+    { uint64_t m = g_max_team.load(); while ((uint64_t)team > m && !g_max_team.compare_exchange_weak(m, (uint64_t)team)) {} }
     const int sn = tl_num, st = tl_team;
     if (g_mode == 0) {
         // member order: permutation of 0..team-1 derived from (orderseed, region index)
         std::vector<int> order(team);
         for (int i = 0; i < team; i++) order[i] = i;
-        uint64_t s = mix64(g_orderseed, g_regions);
+        uint64_t s = mix64(g_orderseed, region_index);
         if (g_orderseed == 0) { /* identity */ }
         else if (g_orderseed == 1) { for (int i = 0; i < team; i++) order[i] = team - 1 - i; }
         else for (int i = team - 1; i > 0; i--) { s = mix64(s, i); int j = (int)(s % (uint64_t)(i + 1)); std::swap(order[i], order[j]); }
@@ -70,8 +71,8 @@ void GOMP_parallel(void (*fn)(void *), void *data, unsigned num_threads, unsigne
     } else {
         std::vector<pthread_t> th(team);
         std::vector<Arg> args(team);
-        for (int k = 1; k < team; k++) { args[k] = {fn, data, k, team}; pthread_create(&th[k], nullptr, tramp, &args[k]); }
-        args[0] = {fn, data, 0, team};
+        for (int k = 1; k < team; k++) { args[k] = {fn, data, k, team, g_nthreads}; pthread_create(&th[k], nullptr, tramp, &args[k]); }
+        args[0] = {fn, data, 0, team, g_nthreads};
         tramp(&args[0]);
         for (int k = 1; k < team; k++) pthread_join(th[k], nullptr);
     }
@@ -83,7 +84,7 @@ void pbt_shim_config(int mode, uint64_t orderseed) { g_mode = mode; g_orderseed 
 void pbt_shim_cap(int cap) { g_cap = cap; }
 void pbt_shim_stats(uint64_t *regions, uint64_t *multi, uint64_t *maxteam, int reset)
 {
-    if (regions) *regions = g_regions; if (multi) *multi = g_multi_regions; if (maxteam) *maxteam = g_max_team;
+    if (regions) *regions = g_regions.load(); if (multi) *multi = g_multi_regions.load(); if (maxteam) *maxteam = g_max_team.load();
     if (reset) { g_regions = g_multi_regions = g_max_team = 0; }
 }
 }
